@@ -11,7 +11,7 @@ from .cache_engine import max_diff
 from .extract import digest
 from .tlc import run_tlc, wrapper
 
-IN_SCALARS = ["alpha"]
+IN_SCALARS = ["alpha", "wave"]          # wave changes sign on the grid (|.| estimators differ from the plain ones)
 IN_OTHERS = ["gammadown3", "Kdown3", "betaup3"]
 SCALAR_VARS = ["gammadet", "curv"]       # curv is a custom variable (function of the AurelCore instance)
 TENSOR_VARS = ["Kup3"]
@@ -46,12 +46,16 @@ CUSTOM_VARS = {"curv": curv, "heavy": heavy}
 CUSTOM_ESTS = {"p5": p5}
 
 
-def run_spec(max_calls, simulate=None, seed=None, steps=STEPS, scalar_vars=SCALAR_VARS):
+ALL_TKEYS = '{{"it"}, {"t"}, {"it", "t"}, {"iteration"}, {"it", "time"}}'
+
+
+def run_spec(max_calls, simulate=None, seed=None, steps=STEPS, scalar_vars=SCALAR_VARS, tensor_vars=None, estimates=None, tkeys=ALL_TKEYS):
     q = lambda s: '"' + s + '"'
     st = lambda xs: "{" + ", ".join(q(x) for x in xs) + "}"
     defs = {"Steps": "{" + ",".join(map(str, steps)) + "}", "InScalars": st(IN_SCALARS), "InOthers": st(IN_OTHERS),
-            "TemporalKeys": '{{"it"}, {"t"}, {"it", "t"}, {"iteration"}, {"it", "time"}}', "ScalarVars": st(scalar_vars), "TensorVars": st(TENSOR_VARS),
-            "Estimates": st(ESTIMATES)}
+            "TemporalKeys": tkeys, "ScalarVars": st(scalar_vars),
+            "TensorVars": st(TENSOR_VARS if tensor_vars is None else tensor_vars),
+            "Estimates": st(ESTIMATES if estimates is None else estimates)}
     name, text, cl = wrapper("OverTime", defs)
     cfg = f"""SPECIFICATION Spec
 CONSTANTS
@@ -84,6 +88,8 @@ def fd():
 def step_inputs(step):
     if step not in _STEP_INPUTS:
         d = fields.generic_inputs(fd(), 40 + step, "tensors")
+        f = fd()
+        d["wave"] = np.sin(3.0 * f.x + 2.0 * f.y - f.z + step) * (1.0 + 0.1 * step)      # a user column the library does not know
         _STEP_INPUTS[step] = {k: d[k] for k in IN_SCALARS + IN_OTHERS}
     return _STEP_INPUTS[step]
 
